@@ -342,10 +342,22 @@ fn migrate_msg(w: &[u32; WORLD_WORDS], cfg: &wire::Cfg, allow_invalid: bool) -> 
             }
         }
         if sel & 8 != 0 {
-            ch.ask_attrs = Some(if sel & 64 != 0 { vec![] } else { vec!["ask.kyc".into(), "ask.extra".into()] });
+            ch.ask_attrs = Some(if sel & 64 != 0 {
+                vec![]
+            } else if sel & 256 != 0 {
+                vec!["ask.kyc".into(), "".into()]
+            } else {
+                vec!["ask.kyc".into(), "ask.extra".into()]
+            });
         }
         if sel & 16 != 0 {
-            ch.bid_attrs = Some(if sel & 128 != 0 { vec![] } else { vec!["bid.kyc".into()] });
+            ch.bid_attrs = Some(if sel & 128 != 0 {
+                vec![]
+            } else if sel & 512 != 0 {
+                vec!["".into()]
+            } else {
+                vec!["bid.kyc".into()]
+            });
         }
     }
     ch.to_migrate()
